@@ -345,6 +345,9 @@ func (e *env) execute(cx *mc.Ctx) (sched.Result, []verdict) {
 			vs = append(vs, verdict{"panic:" + p, fmt.Sprintf("thread %d panicked: %s", i, p)})
 		}
 	}
+	if len(res.Leaked) > 0 {
+		vs = append(vs, verdict{"lock-never-released:" + res.Leaked[0], fmt.Sprintf("every thread has returned but %d lock(s) are still held, taken in %v: the next transaction that logs blocks for ever", len(res.Leaked), res.Leaked)})
+	}
 	vs = append(vs, e.judge()...)
 	return res, vs
 }
@@ -474,8 +477,12 @@ func runSchedules(c *runner.Ctx) {
 			panic("C19 baseline: " + err.Error())
 		}
 		c.RaceReports()
-		st := mc.Explore(mc.Options{Bound: bound, MaxExecs: 2000000, Stop: c.Expired, Worker: c.Worker, Workers: c.Workers}, func(cx *mc.Ctx) {
+		poisoned := false // after a deadlock or a leaked lock the writer's state cannot be reused
+		st := mc.Explore(mc.Options{Bound: bound, MaxExecs: 2000000, Stop: func() bool { return poisoned || c.Expired() }, Worker: c.Worker, Workers: c.Workers}, func(cx *mc.Ctx) {
 			res, vs := e.execute(cx)
+			if res.Deadlock != "" || len(res.Leaked) > 0 {
+				poisoned = true
+			}
 			ch := cx.Choices()
 			c.Count("evaluations", 1)
 			c.Count("traces_validated_against_impl", 1)
@@ -506,7 +513,7 @@ func runSchedules(c *runner.Ctx) {
 				c.Sample(map[string]any{"scenario": sc.name, "schedule": strings.Join(res.Trace, " "), "scheduling_points": labels, "log_file": e.readLog()})
 			}
 		})
-		if st.Capped || c.Expired() {
+		if st.Capped || c.Expired() || poisoned {
 			c.Incomplete(fmt.Sprintf("scenario %q: exploration cut (%d executions)", sc.name, st.Execs))
 		}
 		c.Note("scenario %q worker %d/%d: %d schedules, max depth %d, preemption bound %d", sc.name, c.Worker, c.Workers, st.Execs, st.MaxDepth, bound)
